@@ -37,8 +37,9 @@ CFGS = {
     "units": {"preferred_units": "@D1"},
     "map": {"build_network_map": True, "exclude_manufacturer_code": "@L3"},
     "mfg": {"include_manufacturer_code": "@L4"},
+    "exclclaim": {"exclude_pgns": "@L5"},
 }
-SHARED = {"@L1": [129029, "vesselHeading"], "@L2": [127250, 129029, 130816, 126720, 60928, 127257, 130306],
+SHARED = {"@L5": [60928, 130306, 127258], "@L1": [129029, "vesselHeading"], "@L2": [127250, 129029, 130816, 126720, 60928, 127257, 130306],
           "@L3": ["Furuno"], "@L4": ["Garmin", "Navico", "Maretron", "Airmar", "Raymarine", "Victron Energy", "B & G", "Furuno"],
           "@D1": {"TEMPERATURE": "c", "ANGLE": "deg", "SPEED": "kts", "PRESSURE": "bar"}}
 
@@ -46,9 +47,16 @@ GNSS_LINE = ("2022-09-28-11:36:59.668,3,129029,0,255,47,e7,95,3d,00,73,d6,29,00,
              "6c,05,00,00,00,00,13,fc,08,6f,00,be,00,dd,f2,ff,ff,00,ff,ff,ff,ff")
 
 
+_nomatch = []
+
+
 def prime():
     global _send
     catalog.load()
+    # multi-definition PGNs without a catch-all definition: a frame whose match fields fit no definition is ignored
+    for pgn, defs in sorted(catalog.BY_PGN.items()):
+        if len(defs) > 1 and all(d["match"] for d in defs) and not any(d["fallback"] for d in defs) and "fast" in defs[0]:
+            _nomatch.append(pgn)
     # NOTE: no decoder/encoder code may run in this process (see ASSUMPTIONS); fix-points are not needed here.
 
 
@@ -66,6 +74,7 @@ def gen(rng, idx, tier):
     used_src = {e["f"][1] for e in hist}
     free_src = [x for x in range(0, 250) if x not in used_src]
     body = []
+    pending_follow = []
     for e in hist:
         k = rng.random()
         if e["k"] == "fast" and rng.random() < 0.5:
@@ -73,6 +82,27 @@ def gen(rng, idx, tier):
         else:
             d = rng.randrange(nd)
         body.append({"op": "feed", "d": d, "f": e["f"]})
+        if k < 0.08 and _nomatch:
+            # a frame of a multi-definition PGN that matches no definition (ignored), later followed by a valid
+            # variant of the same PGN on the same decoder
+            pgn = rng.choice(_nomatch)
+            dj = rng.randrange(nd)
+            dd = catalog.BY_PGN[pgn][0]
+            bad = bytearray(catalog.payload_for(rng, dd, None if dd["fast"] else 8))
+            if len(bad) >= 2:
+                bad[0], bad[1] = 0xFE, 0x07 | (bad[1] & 0xF8)      # manufacturer code 2046: used by no definition
+            good_def = rng.choice(catalog.BY_PGN[pgn])
+            good = catalog.payload_for(rng, good_def, None if good_def["fast"] else 8)
+            sj = rng.choice(free_src)
+            if dd["fast"]:
+                body.append({"op": "probe_fast", "d": dj, "junk": "nomatch", "frames": [[pgn, sj, 255, 3, fr.hex()] for fr in n2k.fast_frames(bytes(bad), rng.randrange(8), 0xFF)]})
+                follow = {"op": "probe_fast", "d": dj, "frames": [[pgn, sj, 255, 3, fr.hex()] for fr in n2k.fast_frames(good, rng.randrange(8), 0xFF)]}
+            else:
+                body.append({"op": "feed", "d": dj, "f": [pgn, sj, 255, 3, bytes(bad).hex()], "junk": "nomatch"})
+                follow = {"op": "feed", "d": dj, "f": [pgn, sj, 255, 3, good.hex()]}
+            pending_follow.append(follow)
+        if pending_follow and rng.random() < 0.5:
+            body.append(pending_follow.pop(0))
         if k < 0.25:
             j = _junk(rng, rng.randrange(nd), free_src)
             if e["k"] == "fast" and j.get("junk") == "short" and rng.random() < 0.7:
@@ -86,6 +116,7 @@ def gen(rng, idx, tier):
         if k > 0.9:
             body.append({"op": "encode", "e": rng.randrange(ne), "fast": rng.random() < 0.6, "src": rng.randrange(250),
                          "fmt": rng.choice(["ebyte", "usb", "yd"])})
+    body.extend(pending_follow)
     if rng.random() < 0.3:      # a decoder created late, after the others have history
         ops_late = {"op": "create_dec", "d": nd, "cfg": rng.choice(list(CFGS)), "fmt": rng.choice(["ebyte", "usb", "yd", "plain"])}
         body.insert(rng.randrange(len(body) + 1), ops_late)
